@@ -22,8 +22,9 @@ From Coq Require Import ZArith List Bool.
 Import ListNotations.
 Local Open Scope Z_scope.
 
-Record cfg := mkCfg { max_depth : option Z; cc_guard : bool }.
-Definition cfg_unchanged : cfg := mkCfg None false.
+(* fix_rings = the reader option setFixStructure (GEOSWKBReader_setFixStructure_r / GEOSWKTReader_setFixStructure_r; default off) *)
+Record cfg := mkCfg { max_depth : option Z; cc_guard : bool; fix_rings : bool }.
+Definition cfg_unchanged : cfg := mkCfg None false false.
 
 Inductive error :=
 | EEof            (* ByteOrderDataInStream: "Unexpected EOF parsing WKB" *)
@@ -110,6 +111,11 @@ Definition closed2 (s : cseq) : bool := d_eq (cfx s) (clx s) && d_eq (cfy s) (cl
 (* LineString::validateConstruction *)
 Definition line_ok (s : cseq) : bool := negb (cn s =? 1).
 (* LinearRing::validateConstruction (after LineString's) *)
+(* CoordinateSequence::closeRing (called by the readers under fix-structure when !isRing()): a non-empty sequence whose first and
+   last XY differ gets its first point appended; an EMPTY sequence is left alone (the guard the ring readers rely on) *)
+Definition close_ring (s : cseq) : cseq :=
+  if (cn s =? 0) || closed2 s then s else mkSeq (cn s + 1) (cfx s) (cfy s) (cfx s) (cfy s) (cz s) (cm s) (ctame s).
+Definition fixed_ring (fx : bool) (s : cseq) : cseq := if fx then close_ring s else s.
 Definition ring_ok (s : cseq) : bool := (cn s =? 0) || (line_ok s && closed2 s && (3 <=? cn s)).
 (* CircularString::validateConstruction *)
 Definition circ_ok (s : cseq) : bool := negb (cn s =? 2).
@@ -243,18 +249,18 @@ Definition read_circ (hz hm : bool) (s : rd) : res geom :=
   | Ok q s' => if circ_ok q then Ok (GCirc q) s' else Err ECtor (stt s')
   | Err e t => Err e t | Fuel => Fuel
   end.
-Definition read_ring (hz hm : bool) (s : rd) : res cseq :=
+Definition read_ring (fx hz hm : bool) (s : rd) : res cseq :=
   match read_counted_seq 2 hz hm s with
-  | Ok q s' => if ring_ok q then Ok q s' else Err ECtor (stt s')
+  | Ok q s' => if ring_ok (fixed_ring fx q) then Ok (fixed_ring fx q) s' else Err ECtor (stt s')
   | Err e t => Err e t | Fuel => Fuel
   end.
-Fixpoint read_rings (fuel : nat) (n : Z) (hz hm : bool) (s : rd) : res (list cseq) :=
+Fixpoint read_rings (fuel : nat) (n : Z) (fx hz hm : bool) (s : rd) : res (list cseq) :=
   if n <=? 0 then Ok [] s else
   match fuel with
   | O => Fuel
   | S f =>
-    match read_ring hz hm s with
-    | Ok q s1 => match read_rings f (n - 1) hz hm s1 with
+    match read_ring fx hz hm s with
+    | Ok q s1 => match read_rings f (n - 1) fx hz hm s1 with
                  | Ok l s2 => Ok (q :: l) s2
                  | Err e t => Err e t | Fuel => Fuel
                  end
@@ -262,15 +268,15 @@ Fixpoint read_rings (fuel : nat) (n : Z) (hz hm : bool) (s : rd) : res (list cse
     end
   end.
 (* readPolygon *)
-Definition read_polygon (fuel : nat) (hz hm : bool) (s : rd) : res geom :=
+Definition read_polygon (fuel : nat) (fx hz hm : bool) (s : rd) : res geom :=
   match read_u32 s with
   | Ok n s1 =>
     if negb (min_mem 3 n s1) then Err ETooSmall (stt s1) else
     if n =? 0 then Ok (GPoly [seq_empty hz hm]) s1 else
-    match read_ring hz hm s1 with
+    match read_ring fx hz hm s1 with
     | Ok sh s2 =>
       let s3 := if 1 <? n then upd (add_slots (n - 1)) s2 else s2 in
-      match read_rings fuel (n - 1) hz hm s3 with
+      match read_rings fuel (n - 1) fx hz hm s3 with
       | Ok holes s4 => match poly_check (sh :: holes) with
                        | Some e => Err e (stt s4)
                        | None => Ok (GPoly (sh :: holes)) s4
@@ -329,7 +335,7 @@ Fixpoint read_geom (c : cfg) (fuel : nat) (d : Z) (s : rd) {struct fuel} : res (
       if k =? 1 then fin (read_point (h_z h) (h_m h) s1)
       else if k =? 2 then fin (read_line (h_z h) (h_m h) s1)
       else if k =? 8 then fin (read_circ (h_z h) (h_m h) s1)
-      else if k =? 3 then fin (read_polygon f (h_z h) (h_m h) s1)
+      else if k =? 3 then fin (read_polygon f (fix_rings c) (h_z h) (h_m h) s1)
       else if is_container k then
         match read_u32 s1 with
         | Ok n s2 =>
